@@ -215,6 +215,12 @@ def random_cases(n, sd, nslow=0):
 
 
 def validate_traces(ck, doc, name, cfg="Out_trace.cfg", expect_reject=False):
+    doc = dict(doc)
+    seen = {}
+    for t in doc["traces"]:
+        for e in t["events"]:
+            seen[json.dumps(e["var"], sort_keys=True)] = e["var"]
+    doc["variants"] = [seen[k] for k in sorted(seen)]
     wd = c.workdir(PROP, name)
     f = wd / "traces.json"
     f.write_text(json.dumps(doc))
